@@ -25,6 +25,13 @@ UNKNOWN_CODES = [c for c in range(256) if c not in NPAR]
 # ---------------------------------------------------------------------------------------------
 # control of the implementation
 
+_clock = [1000.0]     # the frozen clock of frozen_time(); advance() moves it (never runs by itself)
+
+
+def advance(dt):
+    _clock[0] += dt
+
+
 @contextlib.contextmanager
 def frozen_time():
     """replace `time` in active_surface/__init__.py and usd.py by a frozen clock; sleep is a no-op.
@@ -33,7 +40,8 @@ def frozen_time():
     import threading
     import simulators.active_surface as A
     import simulators.active_surface.usd as Um
-    fake = types.SimpleNamespace(time=lambda: 1000.0, sleep=lambda s: None)
+    _clock[0] = 1000.0
+    fake = types.SimpleNamespace(time=lambda: _clock[0], sleep=lambda s: None)
 
     class RecThread(threading.Thread):
         def __init__(self, *a, **k):
